@@ -18,3 +18,6 @@ struct JournalVersion {
     major: u32,
     minor: u32,
 }
+
+#[cfg(feature = "verif")]
+pub(crate) use prune::prune_journal;
